@@ -139,7 +139,7 @@ def typesOf : WFmt → List FType
 /-- (max uid/gid, min mtime, max mtime, max size) of the numeric fields. -/
 def idMax : WFmt → Int
   | .ustar | .v7tar | .odc => 262143          -- 6 octal digits
-  | .gnutar => 4611686018427387903            -- base-256 in 8 bytes: 62 bits
+  | .gnutar => 72057594037927935              -- base-256 in 8 bytes of which the reader accepts 7 (first byte 0x80)
   | .pax | .paxr | .mtree => 9223372036854775807
   | .newc | .zip => 4294967295
   | .bin | .pwb => 65535
@@ -188,11 +188,36 @@ def permMask : WFmt → Option Nat
 
 def imp (a b : Bool) : Bool := !a || b
 
+/-- Well-formed UTF-8 (lead byte decides the number of continuation bytes; overlong forms and
+surrogates are not distinguished here). -/
+def utf8Ok : List Nat → Bool
+  | [] => true
+  | c :: r =>
+    if c < 128 then utf8Ok r
+    else if 194 ≤ c ∧ c ≤ 223 then
+      match r with
+      | a :: r' => (128 ≤ a && a ≤ 191) && utf8Ok r'
+      | _ => false
+    else if 224 ≤ c ∧ c ≤ 239 then
+      match r with
+      | a :: b :: r' => (128 ≤ a && a ≤ 191) && (128 ≤ b && b ≤ 191) && utf8Ok r'
+      | _ => false
+    else if 240 ≤ c ∧ c ≤ 244 then
+      match r with
+      | a :: b :: d :: r' => (128 ≤ a && a ≤ 191) && (128 ≤ b && b ≤ 191) && (128 ≤ d && d ≤ 191) && utf8Ok r'
+      | _ => false
+    else false
+
+/-- Formats whose writers convert names to UTF-8 / UTF-16: names must be valid in the locale charset. -/
+def convertsNames : WFmt → Bool
+  | .pax | .paxr | .zip | .sevenzip | .xar | .iso9660 => true
+  | _ => false
+
 /-- Format-independent sanity of an entry: pathname present and without "..", link
 fields consistent with the type, a regular file's name does not end in '/'. -/
 def reprShape (f : WFmt) (e : Entry) (p : List Nat) : Bool :=
   !p.isEmpty && !hasDotDot p
-  && (typesOf f).contains e.ftype
+  && ((typesOf f).contains e.ftype || (!e.hard.isEmpty && isTar f))   -- a tar hard-link entry stores no type
   && imp (e.ftype == .lnk) (!e.sym.isEmpty) && imp (!e.sym.isEmpty) (e.ftype == .lnk)
   && imp (!e.hard.isEmpty) (carriesHard f && e.sym.isEmpty)
   && imp (e.ftype == .reg) (p.getLast? != some slash)
@@ -209,6 +234,7 @@ def reprRanges (f : WFmt) (e : Entry) : Bool :=
 /-- Format-specific name and link limits. `p` is the pathname as given, `p'` after the
 format's normalisation. -/
 def reprNames (f : WFmt) (e : Entry) (p p' : List Nat) : Bool :=
+  imp (convertsNames f) (utf8Ok p && utf8Ok e.sym && utf8Ok e.hard && utf8Ok e.uname && utf8Ok e.gname) &&
   match f with
   | .ustar => ustarSplit p' != .tooLong && decide (e.sym.length ≤ 100) && decide (e.hard.length ≤ 100)
               && (match ustarSplit p' with | .split k => (p'.take k).getLast? != some slash | _ => true)
